@@ -1,3 +1,3 @@
 SPECIFICATION Spec
-INVARIANTS BoltFilesOnDisk RootFilesOnDisk CopyFilesOnDisk NoOrphansWhenQuiescent NothingIneligibleWhenQuiescent RetentionWhenQuiescent NewestIsRoot NoOpenFilesAfterClose
+INVARIANTS MergedRootFilesProtected BoltFilesOnDisk RootFilesOnDisk CopyFilesOnDisk NoOrphansWhenQuiescent NothingIneligibleWhenQuiescent RetentionWhenQuiescent NewestIsRoot NoOpenFilesAfterClose
 CHECK_DEADLOCK FALSE
